@@ -12,7 +12,7 @@ from . import progcheck, replay, tlc
 QUICK = ["d1-1d", "d1-2d", "d2-push1", "d2-push2", "d2-push3", "d3-sr1", "d2-lean1", "d2-lean2", "d2-lean3", "d1-win", "d1-rspec",
          "d2-rechunk-after", "d2-rechunk-before", "d1-mapblocks", "d2-above-mapblocks", "d2-win-mapblocks", "d2-below-mapblocks",
          "d3-mapblocks-chain", "d2-unknown-ccs", "d2-unknown-follow", "d3-unknown-ccs-follow", "d3-unknown-ccs-follow2", "d3-inplace-dmd", "d3-inplace-mdm", "d3-inplace-ddm", "d3-inplace-mmd",
-         "d2-inplace2", "d2-inplace3", "d2-inplace1-all", "d2-inplace2-all", "d3-persist-follow1", "d2-persist-follow2", "d2-persist-follow3"]
+         "d2-inplace2", "d2-inplace3", "d2-inplace1-all", "d2-inplace2-all", "d3-persist-follow1", "d2-persist-follow2", "d2-persist-follow3", "d1-reduce-1d", "d1-random", "d2-random", "d3-random", "sim-random", "sim-random-share", "d2-sr2", "d2-sr3", "d3-sr1-all"]
 
 
 def one(name):
